@@ -43,6 +43,7 @@ Definition cschema := list cblock.          (* document order *)
 Record placed := mkPl {
   p_ns : nsid;
   p_efd : bool;          (* form_qualified of the consolidated Schema: the first block's *)
+  p_own : bool;          (* elementFormDefault of the block the declaration is written in *)
   p_first : bool;        (* written in the first block of its namespace *)
   p_decl : cdecl
 }.
@@ -60,7 +61,7 @@ Fixpoint place (seen : list nsid) (all : cschema) (bs : list cblock) : list plac
   | b :: bs' =>
       let first := negb (existsb (N.eqb (b_ns b)) seen) in
       let efd := match first_efd (b_ns b) all with Some e => e | None => b_efd b end in
-      map (mkPl (b_ns b) efd first) (b_decls b) ++ place (b_ns b :: seen) all bs'
+      map (mkPl (b_ns b) efd (b_efd b) first) (b_decls b) ++ place (b_ns b :: seen) all bs'
   end.
 
 Definition placed_all (C : cschema) : list placed := place [] C C.
@@ -225,8 +226,13 @@ End Flat.
 
 Definition fuel_of (C : cschema) : nat := S (length (placed_all C)).
 
+Definition is_type (p : placed) : bool := dkind_eqb (decl_kind (p_decl p)) KType.
+
+(* extension chains are at most as long as there are types *)
+Definition chain_fuel (T : list placed) : nat := S (length (filter is_type T)).
+
 Definition type_view (C : cschema) (q : qn) : option (list fchild * list adecl) :=
-  flat_type (placed_all C) (fuel_of C) (fuel_of C) q.
+  flat_type (placed_all C) (chain_fuel (placed_all C)) (fuel_of C) q.
 
 (* ---------------- spec side ---------------- *)
 (* XSD structures: an element reference denotes the global declaration with the
